@@ -14,6 +14,21 @@ fn main() {
         match prog::vfn::selftest() { Ok(n) => println!("vfn selftest ok: {} carrier elements", n), Err(e) => { eprintln!("vfn selftest FAILED: {}", e); std::process::exit(2) } }
         return;
     }
+    if args[1] == "--describe-all" {
+        // pgen --describe-all <family> <tier> <step>: every step-th unit with its first variant's items and relation table
+        let us = prog::families::units(&args[2], args[3] == "thorough");
+        let step: usize = args.get(4).and_then(|s| s.parse().ok()).unwrap_or(1);
+        let mut arr = vec![];
+        for (ui, u) in us.iter().enumerate() {
+            if ui % step != 0 { continue; }
+            let v = &u.variants[0];
+            let rels: Vec<prog::mj::J> = v.prog.rels.iter().map(|r| prog::mj::obj(vec![("name", r.name.clone().into()), ("arity", r.arity.into()), ("lattice", r.lat.is_some().into()), ("ds", r.ds.is_some().into())])).collect();
+            arr.push(prog::mj::obj(vec![("family", args[2].clone().into()), ("unit", ui.into()), ("tag", u.tag.clone().into()), ("items", prog::harness::variant_items(v).into()), ("rels", prog::mj::J::Arr(rels)),
+                ("nrels", v.prog.rels.len().into()), ("nmacros", v.prog.macros.len().into())]));
+        }
+        println!("{}", prog::mj::J::Arr(arr).to_string());
+        return;
+    }
     if args[1] == "--describe" {
         // pgen --describe <family> <tier> <unit>: JSON description of one unit (for compile-failure reports)
         let us = prog::families::units(&args[2], args[3] == "thorough");
